@@ -53,11 +53,9 @@ Check (C03_sound_full_refuted :
 Check (C03_type_compat_is_AreTypesCompatible : forall vt et, type_compat vt et = types_compatible vt et).
 Check (C03_unspread_fragment_refuted :
   exists S D, check_operation_document S D = [] /\ rule_ok S D R_fields_exist = false).
-Check (C03_same_interface_refuted :
-  (exists S D, check_operation_document S D = [] /\ rule_ok S D R_fields_exist = false)
-  /\ (exists S D, check_operation_document S D = []
-                  /\ rule_ok S D R_fields_exist = false /\ rule_ok S D R_directives_defined = false
-                  /\ rule_ok S D R_spreads_defined = false)).
+Check (C03_same_interface_now_flagged :
+  (exists p i, check_operation_document w_schema_0 w_doc_1 = [mkErr (FieldNotFound (s "nonexistent") (s "I")) p i])
+  /\ length (check_operation_document w_schema_0 w_doc_2) = 2).
 Check (C03_custom_scalar_variable_refuted :
   exists S D, check_operation_document S D = [] /\ rule_ok S D R_vars_defined = false).
 Check (C03_duplicate_argument_refuted :
@@ -81,6 +79,6 @@ Print Assumptions C03_guard_satisfiable.
 Print Assumptions C03_sound_full_refuted.
 Print Assumptions C03_type_compat_is_AreTypesCompatible.
 Print Assumptions C03_unspread_fragment_refuted.
-Print Assumptions C03_same_interface_refuted.
+Print Assumptions C03_same_interface_now_flagged.
 Print Assumptions C03_custom_scalar_variable_refuted.
 Print Assumptions C03_duplicate_argument_refuted.
